@@ -357,6 +357,12 @@ def suite_exhaustive(ctx: Ctx) -> SuiteResult:
 def search(ctx: Ctx, disagreements, broken):
     """§5: look for a concrete history on which the property fails on the implementation."""
     import random
+    import c06_conc
+    vs = c06_conc.search_concurrent(ctx, disagreements)
+    if vs:
+        return vs
+    disagreements = [d for d in disagreements
+                     if not (isinstance(d.case, dict) and d.case.get("kind") == "conc")]
     out = []
     # 1. the diverging cases themselves, under the monitor only
     for d in disagreements:
@@ -379,6 +385,9 @@ def search(ctx: Ctx, disagreements, broken):
 def replay(ctx: Ctx, payload: dict) -> SuiteResult:
     res = SuiteResult("replay")
     case = payload.get("case") or payload.get("first_disagreement")
+    if isinstance(case, dict) and case.get("kind") == "conc":
+        import c06_conc
+        return c06_conc.replay_concurrent(ctx, case)
     vs, d, tr = run_case(case, ctx.driver)
     res.evaluations = 1
     res.violations = vs
@@ -390,18 +399,22 @@ def replay(ctx: Ctx, payload: dict) -> SuiteResult:
 
 if __name__ == "__main__":
     setup_repo_path()
+    sys.path.insert(0, str(Path(__file__).resolve().parent))
+    import c06_conc
     sys.exit(run_check(
-        "C06", lean_modules=["Pamiq.Props.C06"],
+        "C06", lean_modules=["Pamiq.Props.C06", "Pamiq.Props.C06Conc"],
         required_theorems=["Pamiq.Clock.refines", "Pamiq.Clock.history_monotone",
                            "Pamiq.Clock.continuous_op", "Pamiq.Clock.export_pure",
                            "Pamiq.Clock.rate_between", "Pamiq.Clock.sleep_len",
-                           "Pamiq.Clock.load_continues", "Pamiq.Clock.setScale_slip"],
-        suites=[suite_exhaustive, suite_random], search=search, replay=replay,
+                           "Pamiq.Clock.load_continues", "Pamiq.Clock.setScale_slip",
+                           "Pamiq.Clock.clock_calls_atomic"],
+        suites=[suite_exhaustive, suite_random, c06_conc.suite_concurrent], search=search, replay=replay,
         assumptions=["IEEE-754 rounding is not modelled: cases use dyadic values on which every "
                      "float operation of time.py is exact, and are compared for equality",
                      "the real clock never steps backwards",
-                     "lock atomicity of TimeController methods is covered by the concurrent "
-                     "suite (LockObj) — see DESIGN §7.6"],
+                     "concurrent suite: 2-3 logical threads, line-granular preemption inside time.py, "
+                     "scripted real time advances only when the lock changes hands; every schedule for a "
+                     "few operation pairs, preemption-bounded beyond"],
         trusted_extra=["scripted stand-in for the stdlib time module (harness/corr/c06.py FakeStdTime)"],
         level_text="refinement theorem (clock = integral of scale over un-paused real time) for "
                    "all histories + correspondence of the model with time.py"))
